@@ -98,3 +98,22 @@ PROPS['C10']={
  'assumptions':UNIT_ASSUME+['serde_json::to_string on a string modelled from serde_json\'s documented escaping (short escapes, \\u00XX for other controls, everything else verbatim)','itoa modelled relationally (digits d_i with sum d_i*10^i = n, no leading zero); serde_json::Number::{as_i64,as_u64} and Map iteration (BTreeMap order) modelled',
                             'text -> Value (serde_json parser: whitespace, escape spellings, duplicate members) is outside the claim'],
  'obligations':[{'name':'canonicalize','module':'harness.C10','cls':'Canon','quick':{'maxlen':2},'thorough':{'maxlen':3}}]}
+
+SIGNED_ASSUME=UNIT_ASSUME+['serde Serializer data model: the crate\'s Serialize impls (hand-written and derived) run from MIR against a Python model of serde_json::value::Serializer; serde_json::to_string (string escaping), itoa and data_encoding::HEXLOWER are modelled',
+  'PublicKey::verify / PrivateKey::sign are stubs that capture the bytes they are given (the primitives are outside the claim)',
+  'native validation: ed25519 is deterministic, so the library signature equals a direct ring signature over the interpreter\'s bytes iff the library signed exactly those bytes']
+PROPS['C05']={
+ 'bounds_statement':'the bytes handed to the signature primitive by Metablock::verify, for a link and a layout of fixed small shape with one free string field at a time (0..2 ASCII bytes incl. all controls, quote, backslash; non-ASCII samples), free digests, free u32 threshold / i32 return value: reading them back (undo newline substitution, independent RFC 8259 reader) yields exactly the reference wire tree of the metadata, i.e. every observable field is recoverable, hence distinct metadata have distinct signed bytes. Injectivity of canonical JSON on arbitrary values is C10.',
+ 'assumptions':SIGNED_ASSUME+['expiry text is produced by chrono (dependency); C06 relates text and instant'],
+ 'obligations':[{'name':'link','module':'harness.signed','cls':'SignedBytes','quick':{'what':'link','prop':'C05','nbytes':2},'thorough':{'what':'link','prop':'C05','nbytes':3}},
+                {'name':'layout','module':'harness.signed','cls':'SignedBytes','quick':{'what':'layout','prop':'C05','nbytes':2},'thorough':{'what':'layout','prop':'C05','nbytes':3}}]}
+PROPS['C11']={
+ 'bounds_statement':'same captured bytes as C05, read by an OLPC canonical JSON reader (only \\" and \\\\ are escapes) and compared with the reference wire tree; plus key-id preimages (see obligations).',
+ 'assumptions':SIGNED_ASSUME,
+ 'obligations':[{'name':'link','module':'harness.signed','cls':'SignedBytes','quick':{'what':'link','prop':'C11','nbytes':2},'thorough':{'what':'link','prop':'C11','nbytes':3}},
+                {'name':'layout','module':'harness.signed','cls':'SignedBytes','quick':{'what':'layout','prop':'C11','nbytes':2},'thorough':{'what':'layout','prop':'C11','nbytes':3}}]}
+PROPS['C09']={
+ 'bounds_statement':'decided part: (a) Metablock::new, MetablockBuilder::sign and Metablock::verify hand byte-identical strings to the sign / verify primitives for the same link or layout (free string field incl. newline, backslash, quote, controls; free numbers); together with C04 (threshold counting under the ideal-signature oracle) this gives: what the library signs verifies again. NOT decided here: the JSON text round trip (serde_json parser and derive-generated visitors) and the behaviour of the real primitives under bit flips / cross-scheme use (ring, FFI) - these are exercised only by the native replay samples.',
+ 'assumptions':SIGNED_ASSUME,
+ 'obligations':[{'name':'link','module':'harness.signed','cls':'SignedBytes','quick':{'what':'link','prop':'C09','nbytes':2},'thorough':{'what':'link','prop':'C09','nbytes':3}},
+                {'name':'layout','module':'harness.signed','cls':'SignedBytes','quick':{'what':'layout','prop':'C09','nbytes':1},'thorough':{'what':'layout','prop':'C09','nbytes':2}}]}
